@@ -10,6 +10,8 @@ import (
 	"io"
 	"sort"
 	"strings"
+	"sync/atomic"
+	"time"
 
 	protocol "github.com/longportapp/openapi-protocol/go"
 	_ "github.com/longportapp/openapi-protocol/go/v1"
@@ -171,8 +173,28 @@ func showPacket(p *protocol.Packet) string {
 		typeName(m.Type), m.CmdCode, m.RequestId, m.Timeout, m.StatusCode, b(m.Verify), b(m.Gzip), m.Nonce, showBytes(m.Signature), showMap(m.Values), showBytes(p.Body))
 }
 
+// parents of the codec contexts: the frame codec is a function of the bytes and the packet, not of the life cycle of the context a
+// connection was dialled with (a recovery dials with a deadline context that it cancels as soon as the dial returns; an application may
+// cancel the context it gave to Dial): every third context has a cancelled parent, every third one a parent whose deadline has passed
+var (
+	ctxSeq          uint64
+	cancelledParent = func() context.Context { c, cancel := context.WithCancel(context.Background()); cancel(); return c }()
+	expiredParent   = func() context.Context {
+		c, cancel := context.WithDeadline(context.Background(), time.Unix(1, 0))
+		_ = cancel
+		return c
+	}()
+)
+
 func newCtx(version int, codec protocol.CodecType) *protocol.Context {
-	c := protocol.NewContext(context.Background(), protocol.ClientSide)
+	parent := context.Background()
+	switch atomic.AddUint64(&ctxSeq, 1) % 3 {
+	case 1:
+		parent = cancelledParent
+	case 2:
+		parent = expiredParent
+	}
+	c := protocol.NewContext(parent, protocol.ClientSide)
 	c.Version = uint8(version)
 	c.Codec = codec
 	return c
